@@ -1,3 +1,8 @@
 //! Safe-Rust verification hooks for this module (accessors/wrappers only; no logic).
 #![allow(unused_imports, dead_code)]
 use super::*;
+
+// ---- C23/C24 (np_packet_h)
+pub fn mac_parts<'a, 'b>(m: &'b Mac<'a>) -> (u32, &'b [u8]) {
+    (m.keyid, &m.mac)
+}
